@@ -123,6 +123,8 @@ type Scenario struct {
 	Faults     bool // C13: errors are expected when a fault was injected
 	Continue   bool // after a failing call the cycle is abandoned, the sorter cleared and the next cycle run (C13: a failure in a later cycle must surface as well)
 	Abandon    bool // the first cycle is given up after its pushes: Clear without Finalise or Pull, then the next cycle
+	Twice      bool // Finalise is called a second time before the first Pull (a no-op on a finalised sorter)
+	Ties       bool // every key is pushed twice (values that tie under Less)
 	Local      bool // elements of a function-local type that shares its name with another function's local type (both used in the process)
 	Hit        bool // elements of the library's own filter.Hit type (negative and large diagonals)
 	Struct     bool // struct elements some of whose fields are zero for some values (an encoding that omits zero fields)
@@ -164,6 +166,12 @@ func (s Scenario) Name() string {
 	}
 	if s.Local {
 		after += "-localtype"
+	}
+	if s.Twice {
+		after += "-finalise2"
+	}
+	if s.Ties {
+		after += "-ties"
 	}
 	return fmt.Sprintf("sort-%s-chunk%d-push%s%s", mode, s.Chunk, strings.Join(cs, "+"), after)
 }
@@ -255,6 +263,9 @@ func (s Scenario) Mk() vrt.Run {
 		run := func(ci, n int) bool {
 			for i := n; i > 0; i-- {
 				v := base + i
+				if s.Ties {
+					v = base + i/2 // keys in pairs that fall into one chunk of two (ties within a run and across runs)
+				}
 				if do("Push", func() error {
 					if s.Local {
 						return m.Push(lo.mk(v))
@@ -277,6 +288,9 @@ func (s Scenario) Mk() vrt.Run {
 				return true
 			}
 			if do("Finalise", func() error { return m.Finalise() }) != nil {
+				return false
+			}
+			if s.Twice && do("Finalise", func() error { return m.Finalise() }) != nil {
 				return false
 			}
 			for {
